@@ -121,6 +121,15 @@ def run(ctx, P):
                 check_against_ref(ctx, f"append[{'+'.join(map(str, chunks))}],recollapse={extra}", m2.candles, ref)
         m3 = drive_manager(cs, tf, False, 1, [1] * (n - 1))
         check_against_ref(ctx, "preload1+singles", m3.candles, ref)
+        # ... and at EVERY point of the one-by-one history (a one-candle list included), not only at its end
+        _, _, _, CandleManager_, _ = lib()
+        live = CandleManager_([], timeframe=tf)
+        for k, c in enumerate(clone(cs)):
+            live.append(c)
+            if k < n - 1:
+                check_against_ref(ctx, f"after append {k + 1} of {n}", live.candles, ref_resample(ctx, cs[:k + 1], ts[:k + 1], tfs))
+        one = CandleManager_(clone(cs)[:1], timeframe=tf)
+        check_against_ref(ctx, "a one-candle stream at construction", one.candles, ref_resample(ctx, cs[:1], ts[:1], tfs))
         # the stream handed over in the other accepted encodings (dicts, capitalised dicts, lists with the timestamp
         # first or last), as one chunk of two and then singles: the buckets are those of the RAW stream
         _, _, Candle, CandleManager, _ = lib()
